@@ -147,48 +147,85 @@ class Facts:
                 hi += k * alo
         return lo, hi
 
-    def upper(self, l, depth=2):
-        """best provable upper bound of linear form l: intervals, the stored bound on exactly this
-        form, or a stored fact F <= c plus a bound on the residual l - F (chained `depth` times)"""
-        lo, hi = self.bounds(l)
-        best = hi
-        if not l.terms:
+    def upper(self, l, depth=1, target=None):
+        """a provable upper bound of linear form l: intervals, the stored bound on exactly this
+        form, or a stored fact F <= c plus a bound on the residual l - F (chained `depth` times).
+        With `target`, the search stops as soon as a bound <= target is found."""
+        terms = l.terms
+        best = l.const
+        iv = self.iv
+        for a, k in terms:
+            b = iv.get(a)
+            if b is None:
+                best = INF
+                break
+            best += k * (b[1] if k > 0 else b[0])
+        if not terms:
             return best
-        c = self.ub.get(l.terms)
+        ub = self.ub
+        if not ub:
+            return best
+        c = ub.get(terms)
         if c is not None and c + l.const < best:
             best = c + l.const
-        if depth > 0 and self.ub:
-            mine = set(a for a, _ in l.terms)
-            for k, c in self.ub.items():
-                if k == l.terms:
-                    continue
-                shares = False
-                for a, _ in k:
-                    if a in mine:
-                        shares = True
-                        break
-                if not shares:
-                    continue
-                res = l.sub(Lin(k, 0))
-                if len(res.terms) > len(l.terms):
-                    continue
-                if depth > 1 and res.terms:
-                    rhi = self.upper(res, depth - 1)
+        if depth <= 0 or (target is not None and best <= target):
+            return best
+        mine = dict(terms)
+        cands = []
+        for k, c in ub.items():
+            if k == terms:
+                continue
+            res = None
+            for a, _ in k:
+                if a in mine:
+                    res = True
+                    break
+            if res is None:
+                continue
+            # residual  l - F  as a dict
+            d = dict(mine)
+            for a, co in k:
+                v = d.get(a, 0) - co
+                if v:
+                    d[a] = v
                 else:
-                    rhi = self.bounds(res)[1]
+                    d.pop(a, None)
+            if len(d) > len(mine):
+                continue
+            hi = l.const + c
+            ok = True
+            for a, co in d.items():
+                b = iv.get(a)
+                if b is None:
+                    ok = False
+                    break
+                hi += co * (b[1] if co > 0 else b[0])
+            if ok and hi < best:
+                best = hi
+                if target is not None and best <= target:
+                    return best
+            if depth > 1 and d:
+                cands.append((d, c))
+        if depth > 1:
+            for d, c in cands:
+                r = Lin(tuple(sorted(d.items())), l.const)
+                t2 = None if target is None else target - c
+                rhi = self.upper(r, depth - 1, t2)
                 if rhi + c < best:
                     best = rhi + c
+                    if target is not None and best <= target:
+                        return best
         return best
 
-    def lower(self, l):
-        u = self.upper(l.scale(-1))
+    def lower(self, l, depth=1, target=None):
+        u = self.upper(l.scale(-1), depth, None if target is None else -target)
         return -u
 
     def le(self, l, c=0):
         """is  l <= c  entailed / refuted / unknown -> True / False / None"""
-        if self.upper(l) <= c:
+        if self.upper(l, 2, c) <= c:
             return True
-        if self.lower(l) > c:
+        if self.lower(l, 2, c + 1) > c:
             return False
         return None
 
